@@ -310,11 +310,11 @@ func (u *upstream) serveHTTP1(c net.Conn, id int64) {
 				ev.Headers = append(ev.Headers, [2]string{strings.ToLower(k), v})
 			}
 		}
-		sort.Slice(ev.Headers, func(i, j int) bool { return ev.Headers[i][0] < ev.Headers[j][0] })
+		sort.SliceStable(ev.Headers, func(i, j int) bool { return ev.Headers[i][0] < ev.Headers[j][0] })
 		u.log.addUp(ev)
 		atomic.AddInt32(&inflight, 1)
 		a := parsePlan(planFor(plan, attempt))
-		uri, extra := req.RequestURI, req.Header.Get("X-Verif-Resp-Headers")
+		uri, extra, method := req.RequestURI, req.Header.Get("X-Verif-Resp-Headers"), req.Method
 		go func() {
 			if a.delay > 0 {
 				select {
@@ -335,6 +335,13 @@ func (u *upstream) serveHTTP1(c net.Conn, id int64) {
 			}
 			rb := respBody(token, u.Name, id, attempt, a.bodyLen)
 			hdr := fmt.Sprintf("HTTP/1.1 %d %s\r\nContent-Length: %d\r\nX-Verif-Token: %s\r\nX-Verif-Attempt: %d\r\nX-Verif-Upstream: %s\r\nX-Verif-Echo-Path: %s\r\n", a.status, http.StatusText(a.status), len(rb), token, attempt, u.Name, uri)
+			if a.status == 204 || a.status == 304 {
+				// no content: neither a body nor a Content-Length
+				hdr = fmt.Sprintf("HTTP/1.1 %d %s\r\nX-Verif-Token: %s\r\nX-Verif-Attempt: %d\r\nX-Verif-Upstream: %s\r\nX-Verif-Echo-Path: %s\r\n", a.status, http.StatusText(a.status), token, attempt, u.Name, uri)
+				rb = nil
+			} else if method == "HEAD" {
+				rb = nil // the header fields of the GET response, no body
+			}
 			if extra != "" {
 				for _, kv := range strings.Split(extra, ";") {
 					if p := strings.SplitN(kv, "=", 2); len(p) == 2 {
@@ -416,7 +423,7 @@ func (u *upstream) serveBolt(c net.Conn, id int64) {
 				hm[string(kv[0])] = string(kv[1])
 				ev.Headers = append(ev.Headers, [2]string{string(kv[0]), string(kv[1])})
 			}
-			sort.Slice(ev.Headers, func(i, j int) bool { return ev.Headers[i][0] < ev.Headers[j][0] })
+			sort.SliceStable(ev.Headers, func(i, j int) bool { return ev.Headers[i][0] < ev.Headers[j][0] })
 			token := hm["x-verif-token"]
 			plan := hm["x-verif-plan"]
 			attempt := u.log.nextAttempt(token)
@@ -507,7 +514,7 @@ func (u *upstream) serveHTTP2(c net.Conn, id int64) {
 				ev.Headers = append(ev.Headers, [2]string{strings.ToLower(k), v})
 			}
 		}
-		sort.Slice(ev.Headers, func(i, j int) bool { return ev.Headers[i][0] < ev.Headers[j][0] })
+		sort.SliceStable(ev.Headers, func(i, j int) bool { return ev.Headers[i][0] < ev.Headers[j][0] })
 		u.log.addUp(ev)
 		atomic.AddInt32(&inflight, 1)
 		defer atomic.AddInt32(&inflight, -1)
@@ -546,8 +553,15 @@ func (u *upstream) serveHTTP2(c net.Conn, id int64) {
 				}
 			}
 		}
+		if a.status == 204 || a.status == 304 {
+			w.WriteHeader(a.status)
+			return
+		}
 		w.Header().Set("Content-Length", strconv.Itoa(len(rb)))
 		w.WriteHeader(a.status)
+		if req.Method == "HEAD" {
+			return
+		}
 		if a.final == "half" {
 			_, _ = w.Write(rb[:len(rb)/2])
 			if f, ok := w.(http.Flusher); ok {
@@ -669,7 +683,7 @@ func (h *http1Client) do(r reqSpec) clEvent {
 			ev.Headers = append(ev.Headers, [2]string{strings.ToLower(k), v})
 		}
 	}
-	sort.Slice(ev.Headers, func(i, j int) bool { return ev.Headers[i][0] < ev.Headers[j][0] })
+	sort.SliceStable(ev.Headers, func(i, j int) bool { return ev.Headers[i][0] < ev.Headers[j][0] })
 	if berr != nil {
 		ev.Kind, ev.Err = "closed", "body: "+berr.Error()
 		h.close()
@@ -924,7 +938,7 @@ func (h *http2Client) do(r reqSpec) clEvent {
 			ev.Headers = append(ev.Headers, [2]string{strings.ToLower(k), v})
 		}
 	}
-	sort.Slice(ev.Headers, func(i, j int) bool { return ev.Headers[i][0] < ev.Headers[j][0] })
+	sort.SliceStable(ev.Headers, func(i, j int) bool { return ev.Headers[i][0] < ev.Headers[j][0] })
 	if berr != nil {
 		if ctx.Err() != nil {
 			ev.Kind = "open"
